@@ -48,6 +48,11 @@ pub struct Hist {
     pub log: Vec<String>,
     pub bound: f64,
     pub registry: Vec<Snap>,
+    /// the caller's seed arrays: a seed with the values and dimensions of an earlier one is that array handed in again
+    /// (`seed.clone()`) when `reuse_seed_handles` is set
+    pub seed_pool: Vec<(Vec<usize>, Vec<u64>, Array)>,
+    pub reuse_seed_handles: bool,
+    pub seeds_handed_in_again: u64,
     /// extra handles the program keeps alive (flag-changed clones)
     pub kept_handles: Vec<Array>,
     pub snapshots_on: bool,
@@ -80,6 +85,9 @@ impl Hist {
             bound: 0.0,
             registry: vec![],
             kept_handles: vec![],
+            seed_pool: vec![],
+            reuse_seed_handles: false,
+            seeds_handed_in_again: 0,
             snapshots_on,
             track_slots: true,
             failures: vec![],
@@ -446,7 +454,19 @@ impl Hist {
         self.started.push(start);
         self.passes += 1;
         let before: Vec<Option<(Vec<usize>, Vec<f64>)>> = self.handles.iter().map(|h| h.as_ref().and_then(grad_of)).collect();
-        let seed_arr = seed.array(&dims);
+        let mut seed_arr = seed.array(&dims);
+        if self.reuse_seed_handles {
+            if let Some(sa) = &seed_arr {
+                let b = bits(sa);
+                match self.seed_pool.iter().find(|(d, v, _)| d == &dims && v == &b) {
+                    Some((_, _, held)) => {
+                        seed_arr = Some(held.clone());
+                        self.seeds_handed_in_again += 1;
+                    }
+                    None => self.seed_pool.push((dims.clone(), b, sa.clone())),
+                }
+            }
+        }
         if let Some(s) = &seed_arr {
             // the caller may keep its seed: it must not change either
             self.register(s, "seed");
